@@ -32,6 +32,7 @@ def configs(tier):
                 out.append({"part": "lemma", "n": n, "A": list(A), "flavour": flav})
     out.append({"part": "weight"})
     out.append({"generic": "every shape"})
+    out.append({"lean": "size-generic lemmas"})
     return out
 
 
@@ -41,6 +42,9 @@ def canaries(tier):
 
 
 def run_config(ctx, cfg):
+    if cfg.get("lean"):
+        from contracts import leanlink
+        return leanlink.run(ctx, "C09")
     if cfg.get("generic"):
         from contracts import gsets
         return gsets.run(ctx, "C09")
